@@ -104,11 +104,15 @@ Theorem C07_rotate_right_constant : forall wa wr n a, 1 <= wa -> 0 <= wr <= wa -
   RotateRightConstant_propagate wa wr n a = spec_rotr wa wr a n.
 Proof. exact RotateRightConstant_correct. Qed.
 
-Theorem C07_rotate_constant_wide_refuted :
-  exists wa wr n a, 1 <= wa /\ 0 <= n <= wa /\ 0 <= a < 2 ^ wa /\
-    RotateLeftConstant_propagate wa wr n a <> spec_rotl wa wr a n /\
-    RotateRightConstant_propagate wa wr 0 a <> spec_rotr wa wr a 0.
-Proof. exact rotate_constant_wide_refuted. Qed.
+(* C07-ROTC-WIDE: repaired in /repo, switched by fixes/C07_switch.py *)
+(* every result width, also wider than the operand (C07-ROTC-WIDE repaired) *)
+Theorem C07_rotate_left_constant_full : forall wa wr n a, 1 <= wa -> 0 <= wr -> 0 <= n <= wa -> 0 <= a < 2 ^ wa ->
+  RotateLeftConstant_propagate wa wr n a = spec_rotl wa wr a n.
+Proof. exact RotateLeftConstant_full. Qed.
+
+Theorem C07_rotate_right_constant_full : forall wa wr n a, 1 <= wa -> 0 <= wr -> 0 <= n <= wa -> 0 <= a < 2 ^ wa ->
+  RotateRightConstant_propagate wa wr n a = spec_rotr wa wr a n.
+Proof. exact RotateRightConstant_full. Qed.
 
 (* ---- variable shifts: every amount 0 <= b < 2^wb, including amounts >= the data width ----------- *)
 Theorem C07_shift_left : forall wa wb wr a b,
@@ -141,11 +145,17 @@ Theorem C07_shift_right_arithmetic_wire : forall wa wb wr v a b,
   m_ShiftRight (AWire v) wa wb wr a b = if v mod 2 =? 1 then spec_sar wa wr a b else spec_shr wr a b.
 Proof. exact ShiftRight_wire_correct. Qed.
 
-(* known finding C07-SAR-WIDE: result wider than wa + 1 gets zeros instead of the sign *)
-Theorem C07_shift_right_arithmetic_wide_refuted :
-  exists wa wb wr a b, 1 <= wa /\ 1 <= wb /\ 0 <= a < 2 ^ wa /\ 0 <= b < 2 ^ wb /\
-    m_ShiftRight AArith wa wb wr a b <> spec_sar wa wr a b.
-Proof. exact shift_right_arith_wide_refuted. Qed.
+(* C07-SAR-WIDE: repaired in /repo, switched by fixes/C07_switch.py *)
+(* every result width (C07-SAR-WIDE repaired): no guard *)
+Theorem C07_shift_right_arithmetic_full : forall wa wb wr a b,
+  1 <= wa -> 1 <= wb -> 0 <= wr -> 0 <= a < 2 ^ wa -> 0 <= b < 2 ^ wb ->
+  m_ShiftRight AArith wa wb wr a b = spec_sar wa wr a b.
+Proof. exact ShiftRight_arith_full. Qed.
+
+Theorem C07_shift_right_arithmetic_wire_full : forall wa wb wr v a b,
+  1 <= wa -> 1 <= wb -> 0 <= wr -> 0 <= a < 2 ^ wa -> 0 <= b < 2 ^ wb ->
+  m_ShiftRight (AWire v) wa wb wr a b = if v mod 2 =? 1 then spec_sar wa wr a b else spec_shr wr a b.
+Proof. exact ShiftRight_wire_full. Qed.
 
 (* ---- variable rotations: every amount (reduced modulo wa by the specification); each stage must be a legal
    constant rotation, 2^(wb-1) <= wa (otherwise the real block raises ValueError); guard wa <= wr: the
@@ -160,10 +170,17 @@ Theorem C07_rotate_left : forall wa wb wr a b,
   m_RotateLeft wa wb wr a b = spec_rotl wa wr a b.
 Proof. exact RotateLeft_correct. Qed.
 
-Theorem C07_rotate_narrow_refuted :
-  exists wa wb wr a b, 1 <= wa /\ 1 <= wb /\ 2 ^ (wb - 1) <= wa /\ 0 <= a < 2 ^ wa /\ 0 <= b < 2 ^ wb /\
-    m_RotateRight wa wb wr a b <> spec_rotr wa wr a b /\ m_RotateLeft wa wb wr a b <> spec_rotl wa wr a b.
-Proof. exact rotate_narrow_refuted. Qed.
+(* C07-ROT-NARROW: repaired in /repo, switched by fixes/C07_switch.py *)
+(* every result width, also narrower than the operand (C07-ROT-NARROW repaired) *)
+Theorem C07_rotate_right_full : forall wa wb wr a b,
+  1 <= wa -> 0 <= wr -> 1 <= wb -> 2 ^ (wb - 1) <= wa -> 0 <= a < 2 ^ wa -> 0 <= b < 2 ^ wb ->
+  m_RotateRight wa wb wr a b = spec_rotr wa wr a b.
+Proof. exact RotateRight_full. Qed.
+
+Theorem C07_rotate_left_full : forall wa wb wr a b,
+  1 <= wa -> 0 <= wr -> 1 <= wb -> 2 ^ (wb - 1) <= wa -> 0 <= a < 2 ^ wa -> 0 <= b < 2 ^ wb ->
+  m_RotateLeft wa wb wr a b = spec_rotl wa wr a b.
+Proof. exact RotateLeft_full. Qed.
 
 (* ---- two's-complement helpers (any integer v, also negative / oversized) ----------------------- *)
 Theorem C07_signed_to_c2 : forall v w, 0 <= w -> IntegerHelper_signed_to_c2 v w = spec_signed_to_c2 v w.
@@ -250,16 +267,22 @@ Print Assumptions C07_shift_left_constant.
 Print Assumptions C07_shift_right_constant.
 Print Assumptions C07_rotate_left_constant.
 Print Assumptions C07_rotate_right_constant.
-Print Assumptions C07_rotate_constant_wide_refuted.
+(* C07-ROTC-WIDE-pa: repaired in /repo, switched by fixes/C07_switch.py *)
+Print Assumptions C07_rotate_left_constant_full.
+Print Assumptions C07_rotate_right_constant_full.
 Print Assumptions C07_shift_left.
 Print Assumptions C07_shift_right_logical.
 Print Assumptions C07_shift_right_arithmetic.
 Print Assumptions C07_shift_right_arithmetic_std.
 Print Assumptions C07_shift_right_arithmetic_wire.
-Print Assumptions C07_shift_right_arithmetic_wide_refuted.
+(* C07-SAR-WIDE-pa: repaired in /repo, switched by fixes/C07_switch.py *)
+Print Assumptions C07_shift_right_arithmetic_full.
+Print Assumptions C07_shift_right_arithmetic_wire_full.
 Print Assumptions C07_rotate_right.
 Print Assumptions C07_rotate_left.
-Print Assumptions C07_rotate_narrow_refuted.
+(* C07-ROT-NARROW-pa: repaired in /repo, switched by fixes/C07_switch.py *)
+Print Assumptions C07_rotate_right_full.
+Print Assumptions C07_rotate_left_full.
 Print Assumptions C07_signed_to_c2.
 Print Assumptions C07_c2_to_signed.
 Print Assumptions C07_c2_roundtrip.
